@@ -125,6 +125,11 @@ func c04Verify(raw, key []byte) (outcome, vkey, detail string) {
 	if d := snap.diff(m); d != "" {
 		return "", "check-side-effect", fmt.Sprintf("MessageIntegrity.Check changed the message: %s", d)
 	}
+	// checking is idempotent: the same call again on the same Message
+	var err2 error
+	if p := catch(func() { err2 = stun.MessageIntegrity(key).Check(m) }); p != "" || (err2 == nil) != (err == nil) {
+		return "", "check-not-idempotent", fmt.Sprintf("MessageIntegrity.Check = %v, the same call again on the same Message = %v %s: %x", err, err2, p, clip(raw))
+	}
 	// the same check from inside a ForEach callback (ForEach hands the callback a window of the attribute list)
 	var ferr error
 	visited := false
@@ -255,6 +260,16 @@ func init() {
 					}
 				}
 				c.Outcome("long-term-key-lengths")
+				// the short-term key is the password as it is, for every length (both sides of the hash block size)
+				for pl := 0; pl <= 200; pl++ {
+					pw := string(patBytes(pl, 11))
+					c.Eval(1)
+					if got := stun.NewShortTermIntegrity(pw); !bytes.Equal(got, []byte(pw)) {
+						c.Violation("short-term-key", fmt.Sprintf("NewShortTermIntegrity(password of %d bytes) is a %d-byte key %x, RFC 5389 s15.4: key = SASLprep(password) (the password itself for ASCII)", pl, len(got), clip(got)), c04Case{Kind: "shortterm", Cred: []string{pw}})
+						break
+					}
+				}
+				c.Outcome("short-term-key-lengths")
 			}
 			enumAttrLists(nb, beforeOpts, func(before []c04Attr) {
 				b0 := append([]c04Attr(nil), before...)
@@ -473,6 +488,11 @@ func init() {
 			case "longterm":
 				if kk, d := c04LongTerm(k.Cred); kk != "" {
 					c.Violation(kk, d, k)
+				}
+				return
+			case "shortterm":
+				if got := stun.NewShortTermIntegrity(k.Cred[0]); !bytes.Equal(got, []byte(k.Cred[0])) {
+					c.Violation("short-term-key", fmt.Sprintf("NewShortTermIntegrity(password of %d bytes) is a %d-byte key", len(k.Cred[0]), len(got)), k)
 				}
 				return
 			case "refuse":
